@@ -86,7 +86,7 @@ def record_corpus(fam, tier, sd):
         # scenarios: the thorough tier is cut into more, shorter-lived shards,
         # at most one per core at a time.
         width = min(vlib.NCPU, 16)
-        shards = width if tier == "quick" else width * 12
+        shards = width if (tier == "quick" or os.environ.get("VERIF_ONLY")) else width * 12
         extra_env = fam.prepare(tier, sd, d) if fam.prepare else {}
 
         def start(i):
